@@ -258,12 +258,25 @@ def gen_rw_shard(args) -> dict:
 
 
 # ------------------------------------------------------------------ outcome probes (C06/C10)
-def probe(cls, data: bytes) -> dict:
-    """One complete run of kio's decoder on `data`; observed at its return / raise."""
+def probe(cls, data: bytes, in_memory: bool = False) -> dict:
+    """One complete run of kio's decoder on `data`; observed at its return / raise.  in_memory: through
+    io.BytesIO (seekable, tell-able) instead of the read-only recording source."""
     from kio.serial.errors import BufferUnderflow, SerialError
-    src, result, exc, consumed = decode_recorded(cls, data, budget=4 * len(data) + 64)
-    out = {"consumed": consumed, "reads": RecSource.nreads(src), "mro": [], "serial": False,
-           "result": result, "exc": exc}
+    if in_memory:
+        import io
+        from kio.serial import entity_reader
+        buf = io.BytesIO(data)
+        result, exc = None, None
+        try:
+            result = entity_reader(cls)(buf)
+        except BaseException as e:  # noqa: BLE001
+            exc = e
+        out = {"consumed": min(buf.tell(), len(data)), "reads": 0, "mro": [], "serial": False,
+               "result": result, "exc": exc}
+    else:
+        src, result, exc, consumed = decode_recorded(cls, data, budget=4 * len(data) + 64)
+        out = {"consumed": consumed, "reads": RecSource.nreads(src), "mro": [], "serial": False,
+               "result": result, "exc": exc}
     if exc is None:
         out["out"] = "returned"
     elif isinstance(exc, StepBudgetExceeded):
@@ -319,12 +332,14 @@ def gen_trunc_shard(args) -> dict:
         rng = random.Random(seed * 131 + len(cases))
         bounds = [o for o, _ in read_boundaries(cls, raw)]
         probes = []
-        for k in cut_positions(len(raw), bounds, rng, all_below):
-            p = probe(cls, raw[:k])
-            probes.append({"k": k, "out": p["out"], "consumed": p["consumed"], "reads": p["reads"],
-                           "exc": "" if p["exc"] is None else type(p["exc"]).__name__})
+        for j, k in enumerate(cut_positions(len(raw), bounds, rng, all_below)):
+            # every cut through the read-only source; every third one through an in-memory buffer too
+            for mem in ((False, True) if j % 3 == 0 else (False,)):
+                p = probe(cls, raw[:k], in_memory=mem)
+                probes.append({"k": k, "out": p["out"], "consumed": p["consumed"], "reads": p["reads"],
+                               "exc": "" if p["exc"] is None else type(p["exc"]).__name__, "mem": mem})
         nprobes += len(probes)
-        cases.append({"id": c["id"], "mode": "trunc", "sid": c["sid"], "value": c["value"],
+        cases.append({"id": c["id"], "mode": "trunc", "sid": c["sid"], "value": c["value"], "var": c["var"],
                       "enc": project.babs(raw), "probes": probes})
     write_shard(out_path, data["schemas"], cases)
     return {"path": out_path, "cases": len(cases), "probes": nprobes}
@@ -417,7 +432,7 @@ def gen_mut_shard(args) -> dict:
                 pr["check"] = (i % check_every == 0) and len(m) <= 600
             probes.append(pr)
         nprobes += len(probes)
-        cases.append({"id": c["id"], "mode": "mut", "sid": c["sid"], "value": c["value"],
+        cases.append({"id": c["id"], "mode": "mut", "sid": c["sid"], "value": c["value"], "var": c["var"],
                       "enc": project.babs(raw), "probes": probes})
     write_shard(out_path, data["schemas"], cases)
     return {"path": out_path, "cases": len(cases), "probes": nprobes}
@@ -425,7 +440,8 @@ def gen_mut_shard(args) -> dict:
 
 def gen_probe_inputs(args) -> dict:
     """Worker: (class, value) pairs, canonical variant, for the probe checks' pass 1."""
-    path, class_slice, per_class, seed, ms_timestamps = args
+    path, class_slice, per_class, seed, ms_timestamps = args[:5]
+    variants = len(args) > 5 and args[5]
     classes = project.all_entity_classes()
     classes.sort(key=project.sid_of)
     lo, hi = class_slice
@@ -436,7 +452,10 @@ def gen_probe_inputs(args) -> dict:
         for k in range(per_class):
             s = Sampler(seed * 1000211 + ci * 107 + k, profile=["max", "mixed", "min"][k % 3],
                         ms_timestamps=ms_timestamps, wire_domain=True)
+            var = CANON_VAR
+            if variants and schema["flex"] and k % 2 == 1:
+                var = sample_variant(random.Random(seed * 13 + ci * 7 + k), canonical=False)
             cases.append({"id": f"p{ci}_{k}", "sid": schema["sid"], "value": s.value(schema, budget=120),
-                          "var": CANON_VAR})
+                          "var": var})
     write_shard(path, schemas, cases)
     return {"path": path, "cases": len(cases)}
